@@ -177,7 +177,9 @@ def rule_type_copy(chk, rid, armed=ARMED_TYPES):
                     fresh = ci.name not in ("DictStateType", "JsonStateType", "PickleStateType") and \
                         not any(k.arg == "deep" and isinstance(k.value, ast.Constant) and k.value.value is False for k in v.keywords)
                 elif t == "from_bytes":
-                    fresh = True
+                    # a serialisation round trip is a faithful copy only if the type's default format is lossless
+                    from .c11 import default_ext
+                    fresh = default_ext(ci) in ("pickle", "pkl", "b", "txt")
             elif isinstance(v, ast.Subscript) and U(v.value) == dp:
                 fresh = cn in IMMUTABLE_TYPES
             elif U(v) == dp:
@@ -235,3 +237,4 @@ def run(chk):
     rule_vars_thread(chk, "C10.5")
     X.rule_clone_copies_data(chk, "C10.6")
     X.rule_clone_decision_from_input(chk, "C10.7")
+    X.rule_initial_state_plain(chk, "C10.8")
